@@ -111,11 +111,11 @@ func init() {
 		"unicode/utf8.DecodeRuneInString": inDecodeRuneInString,
 		"unicode.IsPrint": inIsPrint,
 		"unicode.IsSpace": inIsSpace,
-		"(*sync.Mutex).Lock":      inNop,
-		"(*sync.Mutex).Unlock":    inNop,
+		"(*sync.Mutex).Lock":      inLock,
+		"(*sync.Mutex).Unlock":    inUnlock,
 		"(*sync.Mutex).TryLock":   func(w *Worker, fr *frame, fn *ssa.Function, args []Value) Value { return true },
-		"(*sync.RWMutex).Lock":    inNop,
-		"(*sync.RWMutex).Unlock":  inNop,
+		"(*sync.RWMutex).Lock":    inLock,
+		"(*sync.RWMutex).Unlock":  inUnlock,
 		"(*sync.RWMutex).RLock":   inNop,
 		"(*sync.RWMutex).RUnlock": inNop,
 		"(*sync.Once).Do":         inOnceDo,
@@ -1222,6 +1222,45 @@ func inDecodeRuneInString(w *Worker, fr *frame, fn *ssa.Function, args []Value) 
 
 // ---- sync / sync.atomic (single-threaded model: the executor runs one goroutine) ----
 
+// Writes to package-level state made while a mutex is held (or through
+// sync.Once / sync/atomic) are synchronised: they are not data races, so they are
+// folded into the path's baseline of the global-state assertion instead of
+// being reported; whether such shared state changes results is judged by the
+// repeated-call comparisons of C18.
+func inLock(w *Worker, fr *frame, fn *ssa.Function, args []Value) Value {
+	if w.lockDepth == 0 {
+		w.lockSnap = w.snapshotGlobals()
+	}
+	w.lockDepth++
+	return nil
+}
+
+func inUnlock(w *Worker, fr *frame, fn *ssa.Function, args []Value) Value {
+	if w.lockDepth > 0 {
+		w.lockDepth--
+	}
+	if w.lockDepth == 0 {
+		w.foldSynchronised()
+	}
+	return nil
+}
+
+// foldSynchronised accepts the changes made since lockSnap was taken.
+func (w *Worker) foldSynchronised() {
+	now := w.snapshotGlobals()
+	if now == w.lockSnap {
+		return
+	}
+	if w.p.globalBase == "" {
+		w.p.globalBase = w.globalSnap
+	}
+	// only legitimate if the state was at the baseline when the critical section began
+	if w.lockSnap == w.p.globalBase {
+		w.p.globalBase = now
+		w.p.globalsDirty = true
+	}
+}
+
 // sync.Once.Do: the done flag is kept in the struct's first field.
 func inOnceDo(w *Worker, fr *frame, fn *ssa.Function, args []Value) Value {
 	p := args[0].(*Value)
@@ -1243,7 +1282,9 @@ func inOnceDo(w *Worker, fr *frame, fn *ssa.Function, args []Value) Value {
 		}
 		*done = int64(1)
 	}
+	inLock(w, fr, fn, nil)
 	w.call(fr, 0, args[1], nil)
+	inUnlock(w, fr, fn, nil)
 	return nil
 }
 
@@ -1290,6 +1331,8 @@ func inAtomicLoad(w *Worker, fr *frame, fn *ssa.Function, args []Value) Value {
 }
 
 func inAtomicStore(w *Worker, fr *frame, fn *ssa.Function, args []Value) Value {
+	inLock(w, fr, fn, nil)
+	defer inUnlock(w, fr, fn, nil)
 	p := args[0].(*Value)
 	if p == nil {
 		w.runtimePanic(fr, "invalid memory address or nil pointer dereference")
@@ -1299,6 +1342,8 @@ func inAtomicStore(w *Worker, fr *frame, fn *ssa.Function, args []Value) Value {
 }
 
 func inAtomicAdd(w *Worker, fr *frame, fn *ssa.Function, args []Value) Value {
+	inLock(w, fr, fn, nil)
+	defer inUnlock(w, fr, fn, nil)
 	p := args[0].(*Value)
 	if p == nil {
 		w.runtimePanic(fr, "invalid memory address or nil pointer dereference")
@@ -1310,6 +1355,8 @@ func inAtomicAdd(w *Worker, fr *frame, fn *ssa.Function, args []Value) Value {
 }
 
 func inAtomicCAS(w *Worker, fr *frame, fn *ssa.Function, args []Value) Value {
+	inLock(w, fr, fn, nil)
+	defer inUnlock(w, fr, fn, nil)
 	p := args[0].(*Value)
 	if p == nil {
 		w.runtimePanic(fr, "invalid memory address or nil pointer dereference")
